@@ -31,6 +31,7 @@ mod c09;
 mod c10;
 mod c12;
 mod c17;
+mod c20;
 mod alpha_index;
 mod join;
 mod working_memory;
@@ -84,6 +85,8 @@ fn main() {
     all.extend(c10::witnesses());
     all.extend(c12::witnesses());
     all.extend(c17::witnesses());
+    all.extend(c20::witnesses());
+    all.extend(c20::open_finding_witnesses());
     all.extend(alpha_index::witnesses());
     all.extend(join::witnesses());
     all.extend(working_memory::witnesses());
